@@ -355,7 +355,7 @@ pub fn check_root(p: &Pos, class: Class, solver: &mut Solver, acc: &mut Acc) {
 
 /// the move counters a FEN carries are no reason to miss a mate or to invent a move: the same check with the halfmove
 /// clock / fullmove number of the root's text set to a pair of a boundary grid
-pub const COUNTER_GRID: [(u32, u32); 6] = [(99, 80), (100, 80), (101, 90), (150, 200), (255, 300), (9999, 9999)];
+pub const COUNTER_GRID: [(u32, u32); 8] = [(97, 80), (98, 80), (99, 80), (100, 80), (101, 90), (150, 200), (255, 300), (9999, 9999)];
 
 pub fn check_root_counters(p: &Pos, class: Class, solver: &mut Solver, acc: &mut Acc, counters: Option<(u32, u32)>) {
     let fen = match counters {
@@ -526,7 +526,7 @@ pub fn run(tier: &str, seed: i64) -> Outcome {
                 // a fixed eighth of the roots (chosen by the position itself, not by the order of the enumeration)
                 let k: u32 = ctx.pos.key().iter().map(|&b| b as u32).sum();
                 if k % 8 == 0 {
-                    check_root_counters(ctx.pos, class, &mut s, acc, Some(COUNTER_GRID[((k / 8) % 6) as usize]));
+                    check_root_counters(ctx.pos, class, &mut s, acc, Some(COUNTER_GRID[((k / 8) % 8) as usize]));
                 }
                 if acc.samples.len() < 3 {
                     acc.sample(json::obj(vec![("root", json::s(ctx.pos.fen6(false))), ("class", json::s(format!("{:?}", class)))]));
